@@ -325,6 +325,33 @@ def opsExtend (mode : Mode) (signed : Bool) (d s : GReg) : Res (List Op) := do
     pure [← regSet mode d v]
   else .err .other
 
+/-! ### stack (64-bit mode): `push_value` / `pop_value` -/
+
+def spE : Expr := sc "rsp" 64
+
+/-- `push r64`: the value is stored below the stack pointer, then the stack pointer moves -/
+def opsPush64 (r : GReg) : Res (List Op) := do
+  let v ← regGet .amd64 r
+  let nsp ← Expr.mkBin .sub spE (Expr.ec 8 64)
+  pure [.store nsp v, .assign (scalar "rsp" 64) nsp]
+
+/-- `pop r64` -/
+def opsPop64 (addr : Nat) (r : GReg) : Res (List Op) := do
+  let lt := ltemp addr 64
+  let nsp ← Expr.mkBin .add spE (Expr.ec 8 64)
+  pure [.load lt spE, .assign (scalar "rsp" 64) nsp, ← regSet .amd64 r (.scalar lt)]
+
+/-- `ret` -/
+def opsRet64 (addr : Nat) : Res (List Op) := do
+  let lt := ltemp addr 64
+  let nsp ← Expr.mkBin .add spE (Expr.ec 8 64)
+  pure [.load lt spE, .assign (scalar "rsp" 64) nsp, .branch (.scalar lt)]
+
+/-- `call rel32` (capstone gives the absolute target as a 64-bit immediate) -/
+def opsCall64 (addr len target : Nat) : Res (List Op) := do
+  let nsp ← Expr.mkBin .sub spE (Expr.ec 8 64)
+  pure [.store nsp (Expr.ec (addr + len) 64), .assign (scalar "rsp" 64) nsp, .branch (Expr.ec target 64)]
+
 /-! ### graphs with a conditional: cmovcc and jcc -/
 
 def blockOf (addr idx : Nat) (ops : List Op) : Block :=
@@ -403,13 +430,19 @@ def liftIns (i : Ins) : Option (Res BTR) :=
   | [.imm t _] =>
     match splitCc i.mnem with
     | some ("j", c) => some (liftJcc c i.addr i.len t)
-    | _ => none
+    | _ => if i.mnem = "call" ∧ i.mode = .amd64 then some (wrap i.addr i.len (opsCall64 i.addr i.len t)) else none
   | [.reg d, .imm v bytes] =>
     if aluMnemonics.contains i.mnem ∧ 8 * bytes = d.bits then some (liftRI i.mode i.mnem i.addr i.len d v bytes)
     else if i.mnem = "test" ∧ 8 * bytes = d.bits then some (wrap i.addr i.len (opsTestRI i.mode d v bytes))
     else none
+  | [] =>
+    if i.mnem = "ret" ∧ i.mode = .amd64 then
+      some (do pure { addr := i.addr, length := i.len, instrs := [oneBlock i.addr (← opsRet64 i.addr)], succs := [] })
+    else none
   | [.reg d] =>
     if unMnemonics.contains i.mnem then some (liftUn i.mode i.mnem i.addr i.len d)
+    else if i.mnem = "push" ∧ i.mode = .amd64 ∧ d.bits = 64 then some (wrap i.addr i.len (opsPush64 d))
+    else if i.mnem = "pop" ∧ i.mode = .amd64 ∧ d.bits = 64 then some (wrap i.addr i.len (opsPop64 i.addr d))
     else match splitCc i.mnem with
       | some ("set", c) => if d.bits = 8 then some (wrap i.addr i.len (opsSetcc i.mode c d)) else none
       | _ => none
